@@ -435,7 +435,28 @@ def codec_module(seed, endianness, prefix="", tier="quick"):
         pad = (8 - w % 8) % 8
         fs = [typedef("e", e["id"])] + ([scalar("p", pad)] if pad else [])
         decls.append(packet(names.new("En"), fs))
+    decls += padded_struct_packets(names)
     return file(endianness, decls)
+
+
+def padded_struct_packets(names):
+    """a struct whose size is static only THROUGH the padding of a fixed-count array (its
+    schema size is the padded size), used where other declarations consume that size: as an
+    element of size- / count-delimited and padded arrays, as a struct-typed field between
+    other fields, inside a child of a parent with a sized payload.  (Rust family only: the
+    names start with Rx, see langs.static_unsupported.)  Seeded changes C16-r3 = C02-r4 = C05-r4."""
+    slot = struct(names.new("RxSlot"), [scalar("id", 8), array("a", width=16, size=2), padding(8)])
+    slot1 = struct(names.new("RxSlot"), [array("a", width=8, size=3), padding(4)])
+    out = [slot, slot1]
+    out.append(packet(names.new("RxT"), [size_f("x", 8), array("x", type_id=slot1["id"]), scalar("t", 8)]))
+    out.append(packet(names.new("RxT"), [count_f("x", 8), array("x", type_id=slot["id"]), scalar("t", 8)]))
+    out.append(packet(names.new("RxT"), [size_f("x", 8), array("x", type_id=slot["id"]), padding(20), scalar("t", 8)]))
+    out.append(packet(names.new("RxF"), [scalar("h", 8), typedef("s", slot["id"]), scalar("t", 8)]))
+    par = packet(names.new("RxP"), [scalar("k", 4), size_f("_payload_", 4), payload()])
+    out.append(par)
+    out.append(packet(names.new("RxC"), [typedef("a", slot1["id"]), typedef("b", slot1["id"])], parent_id=par["id"],
+                      constraints=[constraint("k", 1)]))
+    return out
 
 
 # --------------------------------------------------------------------------- random composition
